@@ -139,29 +139,35 @@ impl<'l, Data> LoopHandle<'l, Data> {
     where
         S: EventSource + 'l,
     {
-        let mut sources = self.inner.sources.borrow_mut();
-        let mut poll = self.inner.poll.borrow_mut();
+        // Find an empty slot if any and occupy it, then release the list of sources again: the
+        // registration of the source may run user code that accesses the loop (see
+        // `live_source()`)
+        let (token, source) = {
+            let mut sources = self.inner.sources.borrow_mut();
+            let slot = sources.vacant_entry();
+            let source = dispatcher.clone_as_event_dispatcher();
+            slot.source = Some(source.clone());
+            (slot.token, source)
+        };
 
-        // Find an empty slot if any
-        let slot = sources.vacant_entry();
-
-        slot.source = Some(dispatcher.clone_as_event_dispatcher());
-        trace!(source = slot.token.get_id(), "Inserting new source");
-        let ret = slot.source.as_ref().unwrap().register(
-            &mut poll,
+        trace!(source = token.get_id(), "Inserting new source");
+        let ret = source.register(
+            &mut self.inner.poll.borrow_mut(),
             &mut self
                 .inner
                 .sources_with_additional_lifecycle_events
                 .borrow_mut(),
-            &mut TokenFactory::new(slot.token),
+            &mut TokenFactory::new(token),
         );
 
         if let Err(error) = ret {
-            slot.source = None;
+            if let Ok(slot) = self.inner.sources.borrow_mut().get_mut(token) {
+                slot.source = None;
+            }
             return Err(error);
         }
 
-        Ok(RegistrationToken { inner: slot.token })
+        Ok(RegistrationToken { inner: token })
     }
 
     /// Inserts an idle callback.
